@@ -709,6 +709,7 @@ def policy_valid(sh, q):
 @register
 class C05(BtProp):
     pid = "C05"
+    invalid_block = ("par", ["cleanup"])
     exhaustive = True
     profiles = [("par", 0.75), ("coreprobe", 0.25)]
     keep = "TN"
@@ -740,6 +741,16 @@ class C05(BtProp):
                 out.append(viol("ticks-all", "parallel %d (sync=%s fresh=%s) ticked %s expected %s"
                                 % (q, sync, fresh, mine, expect), sync=sync))
                 continue
+            if fresh:
+                # "on fresh entry all children are reset to INVALID": a leaf child that still shows last round's result is
+                # told so (terminate(INVALID)) before it is entered again - whatever the policy
+                for c in kids:
+                    if sh.is_leaf(c) and st_of(prev, c) in ("S", "F") and c in mine:
+                        evs = [(e[0], e[1], e[2]) for e in o.T]
+                        first_e = next((j for j, e in enumerate(evs) if e[0] == "E" and e[1] == c), None)
+                        if first_e is not None and not any(e == ("X", c, "I") for e in evs[:first_e]):
+                            out.append(viol("entry-reset", "parallel %d fresh entry: child %d kept %s from the last round "
+                                            "and was entered without a reset" % (q, c, st_of(prev, c)), sync=sync))
             if q not in Y:
                 continue
             after = {c: (Y.get(c) if c in mine else st_of(prev, c)) for c in kids}
@@ -1182,6 +1193,28 @@ WRITERS = ("set", "unset", "cvs")
 class C17(BtProp):
     pid = "C17"
     stream_share = 0.3
+
+    def generate(self, rng, tier):
+        out = BtProp.generate(self, rng, tier)
+        if tier == "search":
+            return out
+        # OUTSIDE THE MODEL's value universe: tuple values (a pose, "one of" sets) stored on the blackboard and compared
+        # against; implementation only, judged by the documented rules of the value checks
+        TV = ["u[]", "u[i:1]", "u[i:1,i:2]", "u[t:idle,t:docked]", "i:1", "t:idle"]
+        for i in range(max(100, len(out) // 20)):
+            kind = rng.choice(["cv", "wv"])
+            key = rng.choice(["/a", "/b"])
+            leaf = ("L", 2, [kind, key, "-", rng.choice(["eq", "ne"]), rng.choice(TV)])
+            spec = ("Q", 1, False, [leaf, ("L", 3, ["probe"])])
+            ops = []
+            for t in range(rng.randint(2, 5)):
+                if rng.random() < 0.7:
+                    ops.append("setbb %s %s" % (key, rng.choice(TV)))
+                ops.append("tick o=3:%s g= t=%d" % (rng.choice("SRF"), t))
+            sc = bt_gen.Scenario("bt", "%s_%s_tup_%d" % (self.pid, tier[0], i), ["tree " + bt_impl.spec_str(spec)], ops,
+                                 {"spec": spec, "impl_only": True})
+            out.append(sc)
+        return out
     profiles = [("stock", 1.0)]
     keep = "TNW"
     keep_events = "IUX"
@@ -1208,6 +1241,16 @@ class C17(BtProp):
         may_key = any((n[0] == "L" and (n[2][0] == "b2s" or (n[2][0] == "set" and str(n[2][2]) != "-")))
                       or (n[0] == "D" and str(n[2]).startswith("s2b:") and str(n[2]).split(":")[2] != "-")
                       for n in sh.node.values())
+        # TypeError out of a tick is documented for ordering comparisons of values that cannot be ordered, and for a
+        # BlackboardToStatus variable that holds something else than a Status
+        def _ordering(n):
+            a = [str(x) for x in n[2]]
+            if a[0] in ("cv", "wv"):
+                return a[3] in ("lt", "le", "gt", "ge")
+            if a[0] == "cvs":
+                return any(a[4 + 4 * j] in ("lt", "le", "gt", "ge") for j in range(int(a[1])))
+            return a[0] == "b2s"
+        may_type = any(n[0] == "L" and _ordering(n) for n in sh.node.values())
         for o in obs:
             if not o.ok:
                 if o.err == "internal" and o.op.startswith("tick") and not may_raise:
@@ -1217,6 +1260,9 @@ class C17(BtProp):
                     # a missing (nested) variable is a FAILURE / RUNNING / KeyError by the documented rules, never an
                     # AttributeError out of the tick
                     out.append(viol("stock-raised", "`%s` raised AttributeError out of the tick" % o.op[:40]))
+                if o.err == "TypeError" and o.op.startswith("tick") and not may_type:
+                    out.append(viol("stock-raised", "`%s` raised TypeError although every comparison in the tree is == / !="
+                                    % o.op[:40]))
                 if o.err == "KeyError" and o.op.startswith("tick") and not may_key:
                     out.append(viol("stock-raised", "`%s` raised KeyError although no behaviour in the tree reads a "
                                     "variable that must exist" % o.op[:40]))
